@@ -124,12 +124,16 @@ def _batch(prop: str, tier: str, vseed: int, start: int, count: int) -> dict:
 # --------------------------------------------------------------------------
 
 def load_known() -> list[dict]:
+    out = []
     path = os.path.join(repo.VERIF, "known_findings.json")
-    if not os.path.exists(path):
-        return []
-    with open(path) as f:
-        data = json.load(f)
-    return data.get("findings", [])
+    if os.path.exists(path):
+        with open(path) as f:
+            out.extend(json.load(f).get("findings", []))
+    # development-time fragments (one per property), merged into known_findings.json at integration
+    for frag in sorted(glob.glob(os.path.join(repo.VERIF, "known", "*.json"))):
+        with open(frag) as f:
+            out.extend(json.load(f).get("findings", []))
+    return out
 
 
 def match_known(prop: str, sig: str, known: list[dict]) -> dict | None:
